@@ -270,6 +270,12 @@ func (c Case) mainRuleLine() int {
 type selector struct {
 	Text   string // canonical text (parser String(), offsets removed)
 	Metric string // "" when the name is not fixed by an equality matcher
+	// Key identifies "the selector's metric(s)": the metric name, or for a selector that picks metrics with a
+	// __name__ regexp the text of the name-only selector (`{__name__=~"foo.*"}`); Bare is that name-only selector
+	// in a form the engine accepts.
+	Key  string
+	Bare string
+	Name []*labels.Matcher // the __name__ matchers
 	Ranges [][2]int
 	Match  []*labels.Matcher // including __name__
 	// JoinDepth: how many times the path from the root enters the "other" side of a vector-to-vector binary
@@ -459,10 +465,33 @@ func selectorsOf(expr string) ([]selector, error) {
 				return nil
 			}
 		}
-		out = append(out, selector{Text: txt, Metric: metric, Ranges: [][2]int{rng}, Match: vs.LabelMatchers, JoinDepth: depths[vs], Protected: prot[vs], HiddenBySibling: hidden[vs]})
+		sel := selector{Text: txt, Metric: metric, Ranges: [][2]int{rng}, Match: vs.LabelMatchers, JoinDepth: depths[vs], Protected: prot[vs], HiddenBySibling: hidden[vs]}
+		var parts []string
+		for _, m := range vs.LabelMatchers {
+			if m.Name == labels.MetricName {
+				sel.Name = append(sel.Name, m)
+				parts = append(parts, m.String())
+			}
+		}
+		sel.Bare = "{" + strings.Join(parts, ",") + "}"
+		sel.Key = sel.Bare
+		if metric != "" {
+			sel.Key, sel.Bare = metric, fmt.Sprintf("{__name__=%q}", metric)
+		}
+		out = append(out, sel)
 		return nil
 	})
 	return out, nil
+}
+
+// selects reports whether a metric called name is one of "the selector's metrics".
+func (s selector) selects(name string) bool {
+	for _, m := range s.Name {
+		if !m.Matches(name) {
+			return false
+		}
+	}
+	return len(s.Name) > 0
 }
 
 // covered reports whether comment target x (a selector text, documented as "matched the way PromQL matchers
@@ -544,19 +573,24 @@ func (c Case) exemption(s selector, cover func(string, selector) bool) string {
 	return ""
 }
 
-func (c Case) produced(metric string) bool {
-	if metric == "" {
-		return false
-	}
-	if c.Kind == "record" && metric == c.mainRuleName() {
+// produced: does a recording rule of the checked file record (one of) the selector's metric(s)?
+func (c Case) produced(s selector) bool {
+	if c.Kind == "record" && s.selects(c.mainRuleName()) {
 		return true
 	}
 	for _, o := range c.Others {
-		if o.Alert == "" && o.Record == metric {
+		if o.Alert == "" && s.selects(o.Record) {
 			return true
 		}
 	}
 	return false
+}
+
+// demandable: clause (2) can be decided for the selector. For a selector that picks its metrics with a __name__
+// regexp the documentation does not say how ignoreMetrics (a list of metric-name regexps) applies, so nothing is
+// demanded when that option is set.
+func (c Case) demandable(s selector) bool {
+	return len(s.Name) > 0 && !s.Protected && (s.Metric != "" || len(c.IgnoreMetrics) == 0)
 }
 
 // ---------------------------------------------------------------------------
@@ -642,12 +676,12 @@ func check(c Case) (out outcome, err error) {
 				return nil, nil, err
 			}
 			present[s.Text] = n > 0
-			if s.Metric != "" {
-				n, err = promsrv.InstantCount(db, fmt.Sprintf("count_over_time({__name__=%q}[%s])", s.Metric, window), at)
+			if len(s.Name) > 0 {
+				n, err = promsrv.InstantCount(db, fmt.Sprintf("count_over_time(%s[%s])", s.Bare, window), at)
 				if err != nil {
 					return nil, nil, err
 				}
-				empty[s.Metric] = n == 0
+				empty[s.Key] = n == 0
 			}
 		}
 		return present, empty, nil
@@ -690,8 +724,13 @@ func check(c Case) (out outcome, err error) {
 	out.PresentNow, out.NoSamples = p0, e0
 	out.InZone = map[string]bool{}
 	for _, at := range []time.Time{anchor, time.Now()} { // pint read the clock somewhere in between
-		for m, in := range alignmentZone(db, at, lb) {
-			out.InZone[m] = out.InZone[m] || in
+		zone := alignmentZone(db, at, lb)
+		for _, s := range sels {
+			for m, in := range zone {
+				if in && s.selects(m) {
+					out.InZone[s.Key] = true
+				}
+			}
 		}
 	}
 
@@ -739,7 +778,7 @@ func check(c Case) (out outcome, err error) {
 			}
 		}
 		// (2) completeness
-		if s.Metric != "" && !s.Protected && e0[s.Metric] && !c.produced(s.Metric) && c.exemption(s, covered) == "" {
+		if c.demandable(s) && e0[s.Key] && !c.produced(s) && c.exemption(s, covered) == "" {
 			found := false
 			for _, p := range out.Problems {
 				if p.Severity == "Bug" && p.Summary != "invalid comment" && overlaps(p, s) {
@@ -748,7 +787,7 @@ func check(c Case) (out outcome, err error) {
 			}
 			if !found {
 				out.Unreported = append(out.Unreported, s)
-				errs = append(errs, fmt.Sprintf("(2) not reported: metric `%s` has no sample in the last %s, no rule records it, no exemption covers `%s`, yet no promql/series Bug points at it", s.Metric, lb, s.Text))
+				errs = append(errs, fmt.Sprintf("(2) not reported: metric `%s` has no sample in the last %s, no rule records it, no exemption covers `%s`, yet no promql/series Bug points at it", s.Key, lb, s.Text))
 			}
 		}
 	}
@@ -818,7 +857,7 @@ func alignmentZone(db *promsrv.DB, now time.Time, lookback time.Duration) map[st
 //	"fallback-hides-sibling-join": the selector is not wrapped in `or vector(N)` itself, but another operand joined
 //	   to the same source is (`a + (b or vector(1)) + c`: c; `a * ((b or vector(1)) + c)`: c).
 func explanations(c Case, out outcome, s selector) (classes []string) {
-	if out.InZone[s.Metric] {
+	if out.InZone[s.Key] {
 		classes = append(classes, "samples-just-before-lookback-window")
 	}
 	if s.JoinDepth >= 2 {
@@ -872,9 +911,13 @@ type selSpec struct {
 	metric   string
 	matchers []string // rendered `a="1"`
 	nameForm bool     // {__name__="foo", ...}
+	nameRe   string   // {__name__=~"...", ...}: the metric is picked by an (anchored) regexp, no literal name
 }
 
 func (s selSpec) String() string {
+	if s.nameRe != "" {
+		return "{" + strings.Join(append([]string{fmt.Sprintf("__name__=~%q", s.nameRe)}, s.matchers...), ", ") + "}"
+	}
 	if s.nameForm {
 		return "{" + strings.Join(append([]string{fmt.Sprintf("__name__=%q", s.metric)}, s.matchers...), ", ") + "}"
 	}
@@ -904,6 +947,14 @@ func genSelector(t *rapid.T, lbl string) selSpec {
 		s.matchers = append(s.matchers, fmt.Sprintf("%s%s%q", l, op, v))
 	}
 	s.nameForm = rapid.IntRange(0, 9).Draw(t, lbl+".nameForm") == 0
+	// a share of selectors pick their metric(s) with a __name__ regexp: a prefix pattern or an alternation over
+	// the vocabulary, or a pattern that matches no metric of the database at all
+	if rapid.IntRange(0, 3).Draw(t, lbl+".nameRegexp") == 0 {
+		other := rapid.SampledFrom(metrics).Draw(t, lbl+".nameRe.other")
+		s.nameRe = rapid.SampledFrom([]string{
+			s.metric + ".*", s.metric + "|" + other, s.metric + "|nosuch", s.metric[:2] + ".", "nosuch.*", "nosuch|missing_.+",
+		}).Draw(t, lbl+".nameRe")
+	}
 	return s
 }
 
@@ -1166,7 +1217,7 @@ func patternGroup(p string) string {
 	case "gone_old", "gone_recent", "flap_off":
 		return "history"
 	}
-	return "unnamed"
+	return "nameregex" // the selector picks its metrics with a __name__ regexp
 }
 
 func classify(c Case) (class string, nontrivial bool, err error) {
@@ -1179,6 +1230,9 @@ func classify(c Case) (class string, nontrivial bool, err error) {
 	var ps []string
 	for _, s := range sels {
 		p := allPats[s.Metric]
+		if s.Metric == "" {
+			p = "nameregex"
+		}
 		pats[p] = true
 		ps = append(ps, patternGroup(p))
 	}
@@ -1287,15 +1341,15 @@ func propSeries(t *testing.T, mode string) {
 				rec.Count("selectors_protected_by_fallback", 1)
 			case out.PresentNow[s.Text]:
 				rec.Count("selectors_present_now", 1)
-			case out.NoSamples[s.Metric] && !c.produced(s.Metric) && c.exemption(s, covered) == "":
+			case c.demandable(s) && out.NoSamples[s.Key] && !c.produced(s) && c.exemption(s, covered) == "":
 				rec.Count("selectors_must_be_reported", 1)
 				if len(out.Selectors) > 1 && anyProtected(out.Selectors) {
 					rec.Count("selectors_must_be_reported_next_to_a_fallback_operand", 1)
 				}
-				if out.InZone[s.Metric] {
+				if out.InZone[s.Key] {
 					rec.Count("selectors_must_be_reported_with_samples_in_alignment_zone", 1)
 				}
-			case out.NoSamples[s.Metric]:
+			case out.NoSamples[s.Key]:
 				rec.Count("selectors_empty_but_exempt_or_produced", 1)
 			default:
 				rec.Count("selectors_absent_now_with_history", 1)
